@@ -231,6 +231,14 @@ def ltsh(num_glyphs, rng):
     return struct.pack(">HH", 0, num_glyphs) + bytes(rng.choice([1, 1, 9, 12, 50, 255]) for _ in range(num_glyphs))
 
 
+def vorg(num_glyphs, rng):
+    """VORG: vertical origins, sorted by glyph id; a writer may store a record that repeats the default."""
+    default = rng.choice([880, 0, -120, 1000])
+    gids = sorted(rng.sample(range(num_glyphs), min(num_glyphs, rng.choice([0, 1, 2, 5]))))
+    recs = [(g, default if rng.random() < 0.4 else rng.randrange(-500, 1500)) for g in gids]
+    return struct.pack(">HHhH", 1, 0, default, len(recs)) + b"".join(struct.pack(">Hh", g, y) for g, y in recs)
+
+
 def post2(post, num_glyphs, rng, dup_pool=False):
     """A format 2.0 'post' table for a TrueType font as name-conscious (and careless) tools write them:
     standard Macintosh names by index, own names as Pascal strings, two glyphs sharing one name, and an
